@@ -3,7 +3,7 @@ from hdr_common import *
 CLAIM = ("After lha_reader_free nothing allocated on the reader's behalf is left: real reader + basic reader + header reference counting driven by an "
          "arbitrary bounded operation history over abstract members (incl. re-presented directories and deferred symlinks being current at abandonment), "
          "with a ghost count of live blocks and open handles, with and without one failing allocation; header parser side: rejected headers release "
-         "their block, replaced strings are released by the extended-header decoders.")
+         "their block and strings, replaced strings are released by the extended-header decoders, extend_raw_data with a moving/failing realloc, lha_decoder_new with failing init, stream constructors/destructor with failing fopen/calloc (handle counter), main() releases reader, stream and file once.")
 ASSUMPTIONS = ["decoder objects are counted stubs (lha_decoder_new/free pairing: C14 decoder.new)", "header objects come from a stubbed parser; the parser's own ownership is checked by tail.*/ext.*.leak"]
 from C16 import MAIN
 HARNESSES = [MAIN, STREAM, extend(3), rsm(2, 4, timeout=600), rsm(2, 5, timeout=900),
